@@ -4,7 +4,7 @@
    protecting lock) and by the harness, which is the environment (cancel, reply, pnotify, pcall, stray,
    pong, ret), must be behaviours of JsonRpc.  One line of c18trace.ndjson = one case:
 
-     {"id": n, "eager": bool, "regnum": [k1..kNC], "lazy": [callers], "ev": [ event, ... ]}
+     {"id": n, "eager": bool, "regnum": [k1..kNC], "lazy": [callers], "ev": [ event, ... ]}   (+ harness notes: timedout, hang)
      event = {"e": kind, "w": who, "id": typed id, "found": bool, "failed": bool, "pend": [typed ids], "res": r}
 
    who: the caller 1..NC whose goroutine is inside the critical section (the harness knows its goroutines),
